@@ -156,11 +156,16 @@ CLOSED_FORMS = {"projective": cf_projective, "hyperboloid": cf_hyperboloid,
 
 # -- reference charts (from Klein truth) ------------------------------------------
 
+# set by C01 only (each check is its own process): sign / extreme-magnitude
+# classes of projective representatives.  C13's tangent-direction tolerances are
+# calibrated for representatives of comparable scale (C12 bounds the disparity).
+WILD_SCALES = False
+
+
 def klein_to_model(k, model, rng=None):
     """coordinates of Klein points in `model` (not half-space: the half-space
     chart is judged convention-free).  projective: random non-zero scale per
-    point when rng is given (positive only: negative representatives belong
-    to C12)."""
+    point when rng is given (see below)."""
     k = np.asarray(k, dtype=float)
     if model == "klein":
         return k.copy()
@@ -169,7 +174,19 @@ def klein_to_model(k, model, rng=None):
     P = rh.klein_to_proj(k)
     if model == "projective":
         if rng is not None:
-            P = P * np.exp(rng.uniform(np.log(0.1), np.log(10.0), size=k.shape[:-1] + (1,)))
+            # homogeneous representatives: per-point scale in [0.1,10]; in 30% of
+            # the calls the signs are random too (negative time coordinate) and
+            # in 20% the magnitudes range over 1e-9..1e9 (seeded changes C01-1,
+            # C01-3: distance / normalisation that only work for representatives
+            # of unit scale in the upper nappe)
+            lead = k.shape[:-1] + (1,)
+            scale = np.exp(rng.uniform(np.log(0.1), np.log(10.0), size=lead))
+            u = rng.random() if WILD_SCALES else 1.0
+            if u < 0.3:
+                scale = scale * rng.choice([-1.0, 1.0], size=lead)
+            elif u < 0.5:
+                scale = scale * 10.0 ** rng.uniform(-9, 9, size=lead)
+            P = P * scale
         return P
     if model == "hyperboloid":
         return P / np.sqrt(np.clip(1.0 - np.sum(k * k, axis=-1, keepdims=True), 1e-300, None))
@@ -204,6 +221,10 @@ def rand_klein(rng, n, shape, cls):
         r = 1.0 - np.exp(rng.uniform(np.log(1e-4), np.log(5e-2), size=shape + (1,)))
     elif cls == "edge":
         r = 1.0 - np.exp(rng.uniform(np.log(1e-8), np.log(1e-4), size=shape + (1,)))
+    elif cls == "deep-edge":
+        # interior points within 1e-8 of the boundary (hyperbolic distance
+        # 10..14 from the origin): 1-r log-uniform in [1e-12,1e-8]
+        r = 1.0 - np.exp(rng.uniform(np.log(1e-12), np.log(1e-8), size=shape + (1,)))
     elif cls == "origin":
         r = np.where(rng.random(size=shape + (1,)) < 0.5, 0.0,
                      np.exp(rng.uniform(np.log(1e-12), np.log(1e-3), size=shape + (1,))))
